@@ -100,6 +100,9 @@ def run(ctx):
         if ev.get("e") == "classes":
             hit.update(ev["classes"])
     ctx.extra["abstract_fault_classes_exercised"] = len(hit)
+    kinds = set(x.split("|")[1] for x in hit)
+    if not {"flip", "over", "ins", "del", "trunc", "none"} <= kinds or len(hit) < 300:
+        raise MachineryError("the concrete mutants exercise too few abstract fault classes: %d, kinds %s" % (len(hit), sorted(kinds)))
     # ---- CLI
     cli_jobs = []
     for fn in sorted(glob.glob(os.path.join(ctx.workdir, "c05.*.out.jsonl.cli"))):
